@@ -218,6 +218,9 @@ def r162(repo, ctx):
     if not sel_tests:
         ctx.undecided('R16.2', LN, 'loadPoints', lp, 'the orbit generator does not select the orbit type by comparing it with string literals inside loadPoints (dispatch through a table of functions?): '
                       'multiplicities and literal orbits are not read off')
+    elif set(mult) != set(MULT):
+        # a branch whose repeat count could not be read off (weights built by an object / helper the normaliser left in place)
+        ctx.undecided('R16.2', LN, 'loadPoints', lp, f'the weight repeat count was read off for {sorted(mult)} only (of {sorted(MULT)}): multiplicities not decided')
     else:
         ctx.check(mult == MULT, 'R16.2', LN, 'loadPoints', lp, f'orbit multiplicities in the generator are {MULT}', f'orbit multiplicities in the generator are {mult}, expected {MULT}', construct=f'multiplicities {mult}')
     for name, (node, rows) in tabs.items():
